@@ -280,6 +280,48 @@ func runC17(c *Ctx) {
 			c.Check(ok, "O3", "CALLERS", e.desc+" reaches the per-group sync", e.fn.Pos(), trunc(pathString(path), 300), e.desc+" no longer reaches the reservation sync: after this event a reservation pod can stay without consumers (or a consumer without reservation)")
 		}
 		c.Floor("O3", "CALLERS sync entry points", len(entries), 6)
+		// the pod DeleteFunc syncs for EVERY relevant pod: the only path that ends the handler without the sync is
+		// "not a relevant pod". (A deleted pod that had already completed still needs it: the delete event is the
+		// second chance for a completion-time sync that failed.)
+		for _, e := range entries {
+			if e.desc != "pod DeleteFunc" || e.fn == nil {
+				continue
+			}
+			reaches := p.performs(func(in ssa.Instruction) bool {
+				cc, ok := in.(ssa.CallInstruction)
+				if !ok {
+					return false
+				}
+				if cal := calleeOf(cc); cal != nil && (cal.Name() == "SyncForGpuGroup" || cal.Name() == "syncForPods") {
+					return true
+				}
+				return cc.Common().IsInvoke() && strings.HasPrefix(cc.Common().Method.Name(), "SyncFor")
+			}, 3)
+			_, path, found := reachAvoiding([]cfgPos{entryPos(e.fn)}, isReturn, reaches, func(from, to *ssa.BasicBlock) bool {
+				return !fx.edgeEstablishes(from, to, func(f Fact) bool { return !f.Pol && isCallNamed(f.T, "isRelevantPod") })
+			})
+			c.Check(!found, "O3", "MPT", e.desc+" syncs for every relevant pod", e.fn.Pos(), "the sync is skipped only for pods that are not GPU-sharing consumers",
+				"the pod delete handler can return without syncing the pod's GPU groups although the pod is relevant ("+pathStr(path)+"), e.g. for a pod that had already completed: when the completion-time sync failed, nothing releases the reservation pod")
+		}
+		// discovery at start-up is cluster-wide: the consumers of a group live in user namespaces, the reservation pods
+		// in the reservation namespace; a list restricted to one namespace finds only half of the picture
+		if sy := p.Func(pkgResv, "service", "Sync"); sy != nil {
+			nl := 0
+			for _, in := range instrsIn(sy, isInvokeNamed("List")) {
+				nl++
+				restricted := false
+				for _, a := range in.(ssa.CallInstruction).Common().Args {
+					for _, src := range valueSources(a, 4) {
+						if strings.HasSuffix(typeKey(src.Type()), "client.InNamespace") {
+							restricted = true
+						}
+					}
+				}
+				c.Check(!restricted, "O3", "PROV", funcKey(sy)+": the start-up sync discovers GPU groups in all namespaces", instrPos(in), "List(HasLabels{gpu-group}) without a namespace",
+					"the start-up sync lists labelled pods in one namespace only: groups whose reservation pod is gone but whose consumers still run (or the reverse) are never visited after a restart")
+			}
+			c.Floor("O3", "PROV start-up discovery lists", nl, 1)
+		}
 		// the completion handler syncs only behind the completion test, and the delete handler unconditionally (relevant pods)
 	}
 
